@@ -1,6 +1,7 @@
 import Driver.Common
 import Logrange.Model.Where
 import Logrange.Model.FIter
+import Logrange.Model.PathSpec
 /-! Model driver for C05 (WHERE evaluation). Requests (byte strings hex, `-` = empty):
 
 * `case U|L <in> <out>`       — one entry of Go's strings.ToUpper / ToLower for a non-ASCII string → `ok`
@@ -14,6 +15,7 @@ import Logrange.Model.FIter
 * `specexpr <ast…>`           — set the expression the SPEC answers are computed from (default: the current one)
 * `ev <ts> <msg> <fields>`    — evaluate on one event: `model=<0|1|err> spec=<0|1|rej> fwf=<0|1>`
 * `match <pattern> <name>`    — path.Match model: `1|0|bad`
+* `specmatch <pattern> <name>` — SPEC of the pattern language (PathSpec.specMatch): `1|0|bad`
 * `value <fields> <name>`     — Fields.Value model: `ok <hex>|panic` then ` spec=<hex|malformed>`
 * `fit.new <min> <max> <n> (<ts> <msg> <fields>)*n` — a fiterator over a list iterator, filter = current expression
   (`fit.newjump`: the list iterator moves one step on a direction switch)
@@ -129,6 +131,8 @@ def step (s : St) (toks : List String) : St × String :=
     (s, s!"model={model} spec={spec} fwf={b01 (decide (Logrange.Fields.WF ev.fields))}")
   | ["match", p, n] =>
     (s, match Logrange.PathMatch.pathMatch (unhex p) (unhex n) with | none => "bad" | some true => "1" | some false => "0")
+  | ["specmatch", p, n] =>
+    (s, match Logrange.PathSpec.specMatch (unhex p) (unhex n) with | none => "bad" | some true => "1" | some false => "0")
   | ["value", f, n] =>
     let m := match Logrange.Fields.valueP (unhex f) (unhex n) with | some v => "ok " ++ hex v | none => "panic"
     let sp := match Logrange.Fields.pairs? (unhex f) with
